@@ -335,7 +335,8 @@ impl Scenario for C07 {
     fn runs(&self, tier: Tier) -> u64 {
         match tier {
             Tier::Quick => 30_000,
-            Tier::Thorough => 2_000_000,
+            // (2 million before the custom-threshold queries were added: they made a run six times dearer)
+            Tier::Thorough => 800_000,
         }
     }
     fn generate(&self, rng: &mut Rng, tier: Tier) -> (Cfg, Vec<Act>) {
